@@ -6,6 +6,7 @@
             "noDrcFix","noNameFix","noDrcNoNameFix":"ok"|fam,    -- the proposed repairs individually left out
             "examinedEq":bool,                                   -- Spec: examined a a = examined a b
             "examinedNEq":bool, "identsEq":bool,                 -- Spec: examinedN a a = examinedN a b; idents a = idents b
+            "fragments":{theorem: "in" | first failing hypothesis}, -- reach of the headline theorems on this pair
             "hyp":{"wfA","wfB","namedA","namedB","uniqueA","uniqueB","noAssignA","noAssignB","propKeysA"}}
   request  {"fn":"ping"}  ->  {"pong":true}
 
@@ -127,6 +128,29 @@ def resStr : Res → String
   | .ok _ => "ok"
   | .error e => e
 
+/-- first failing hypothesis of a theorem on this very pair, or "in" -/
+def firstFailing (hs : List (String × Bool)) : String :=
+  match hs.find? (fun h => !h.2) with
+  | none => "in"
+  | some h => h.1
+
+/-- reach of the headline theorems of Props/C20 on the pair (a, b): evaluated hypotheses only, the
+    harness counts them in the evidence and no verdict depends on them -/
+def fragments (a b : CNetlist) : Json :=
+  Json.mkObj [
+    ("compare_refl", Json.str (firstFailing [
+      ("WF a", wfB a), ("UniqueNames a", decide (UniqueNames a)), ("AssignOK a", assignOkB a),
+      ("copy has the same CNetlist", decide (a = b))])),
+    ("compare_complete", Json.str (firstFailing [
+      ("Named a", namedB a), ("UniqueNames a", decide (UniqueNames a)), ("NoAssign a", noAssignB a),
+      ("WF a", wfB a), ("WF b", wfB b), ("UniqueNames b", decide (UniqueNames b)),
+      ("examined a a = examined a b", examinedEqB a a b), ("idents a = idents b", identsEqB a b)])),
+    ("compare_sound", Json.str (firstFailing [
+      ("Named a", namedB a), ("UniqueNames a", decide (UniqueNames a)), ("NoAssign a", noAssignB a),
+      ("PropKeys a", propKeysB a)])),
+    ("compare_sound_named", Json.str (firstFailing [
+      ("UniqueNames a", decide (UniqueNames a)), ("NoAssign a", noAssignB a), ("PropKeys a", propKeysB a)]))]
+
 def handle (st : Unit) (j : Json) : Except String (Unit × Json) := do
   let fn ← getStr j "fn"
   if fn == "ping" then return (st, Json.mkObj [("pong", Json.bool true)])
@@ -150,6 +174,7 @@ def handle (st : Unit) (j : Json) : Except String (Unit × Json) := do
       ("examinedEq", Json.bool (examinedEqB a a b)),
       ("examinedNEq", Json.bool (examinedNEqB a a b)),
       ("identsEq", Json.bool (identsEqB a b)),
+      ("fragments", fragments a b),
       ("hyp", hyp)])
   throw s!"unknown fn {fn}"
 
